@@ -107,3 +107,50 @@ fn d10b_duration_overflow() {
     let b = std::panic::catch_unwind(std::panic::AssertUnwindSafe(|| r.tracks().get(&1).unwrap().duration()));
     assert!(b.is_ok(), "Mp4Track::duration panicked (duration * 1_000_000 overflow)");
 }
+
+/// D-15: iTunes `data` box declaring fewer than 16 bytes: `start + size - current` underflows in DataBox::read_box
+#[test]
+fn d15_data_box_too_small() {
+    // moov/udta/meta(mdir)/ilst/©nam/data(size 12)
+    let data = {
+        let mut v = vec![0u8, 0, 0, 12];
+        v.extend_from_slice(b"data");
+        v.extend_from_slice(&[0, 0, 0, 1]);
+        v.extend_from_slice(&[0, 0, 0, 0]); // (the reader consumes 8 payload bytes whatever the size says)
+        v
+    };
+    let item = boxed(&[0xa9, b'n', b'a', b'm'], &data);
+    let ilst = boxed(b"ilst", &item);
+    let mut hdlr_p = vec![0u8; 8];
+    hdlr_p.extend_from_slice(b"mdir");
+    hdlr_p.extend_from_slice(&[0u8; 13]);
+    let mut meta_p = vec![0u8; 4];
+    meta_p.extend_from_slice(&boxed(b"hdlr", &hdlr_p));
+    meta_p.extend_from_slice(&ilst);
+    let udta = boxed(b"udta", &boxed(b"meta", &meta_p));
+    let mut moov = Vec::new();
+    MvhdBox::default().write_box(&mut moov).unwrap();
+    moov.extend_from_slice(&udta);
+    let mut v = ftyp_bytes();
+    v.extend_from_slice(&boxed(b"moov", &moov));
+    let res = std::panic::catch_unwind(|| open(v).map(|_| ()));
+    assert!(res.is_ok(), "read_header panicked on a 12-byte data box");
+}
+
+/// D-14: emsg box whose declared size is smaller than its fixed fields: `size - size_without_message` underflows
+#[test]
+fn d14_emsg_too_small() {
+    let mut p = vec![0u8; 4]; // version 0, flags 0
+    p.extend_from_slice(b"urn:x\0");
+    p.extend_from_slice(b"v\0");
+    p.extend_from_slice(&[0u8; 16]); // timescale, delta, duration, id
+    let mut emsg = vec![0u8, 0, 0, 16]; // declared size 16 < real 36
+    emsg.extend_from_slice(b"emsg");
+    emsg.extend_from_slice(&p);
+    let moov = moov_with_stbl(|_| {});
+    let mut v = ftyp_bytes();
+    moov.write_box(&mut v).unwrap();
+    v.extend_from_slice(&emsg);
+    let res = std::panic::catch_unwind(|| open(v).map(|_| ()));
+    assert!(res.is_ok(), "read_header panicked on an emsg box smaller than its fields");
+}
